@@ -728,6 +728,7 @@ func freshTranslator() *anthropic.Translator {
 func main() {
 	res = report.Init("C12", "exploration")
 	tr = anthropic.NewTranslator(hutil.QuietLogger(), config.AnthropicTranslatorConfig{Enabled: true, MaxMessageSize: 10 << 20})
+	e6() // SCHED part first: no olla instance exists yet
 	structureSlice()
 	toolsSlice()
 	scalarSlice()
